@@ -12,6 +12,7 @@ Scenario (JSON-able dict):
            "fail_at": int|None, "cost": ns, "adapter_fail_at": int|None, "n_adapters": int}
 """
 import asyncio
+import os
 import itertools
 from contextlib import contextmanager
 
@@ -409,11 +410,63 @@ def run_scenario(scn, *, bus="sync", chooser=None, seed=0, max_steps=None, use_s
             b.start()
         info["bus"] = b
         Consumer, Producer = b.classes()
-        inv = InverseWiring({n: {q: ComponentPort(*s) for q, s in ins.items()} for n, ins in top_inverse(scn).items()})
-        sched = MasterScheduler(inv, Consumer, Producer, initial_time=scn.get("t0", 0),
-                                simulation_speed=speed[0] / speed[1])
-        info["scheduler"] = sched
-        comps = {c["name"]: build_component(c, ctx) for c in scn["components"]}
+        file_parts = scn.get("from_file")
+        if file_parts:
+            # the scenario goes through tickit's own loading path: written to a YAML configuration file, read back by
+            # read_configs (tagged union), wired by InverseWiring.from_component_configs, built by build_simulation - as ONE
+            # simulation or divided over several (scheduler here, components there) - with the run's bus classes registered
+            # as a state interface of their own, and started through TickitSimulation.run()
+            import tempfile
+            import yaml
+            import vt_config
+            from tickit.core.simulation import build_simulation
+            from tickit.core.state_interfaces import state_interface as SI
+            assert scn.get("t0", 0) == 0 and speed == [1, 1], "build_simulation uses the default initial time and speed"
+            vt_config.CTX["ctx"] = ctx
+            d = tempfile.mkdtemp(prefix="vtcfg_")
+            path = os.path.join(d, "cfg.yaml")
+            with open(path, "w") as f:
+                yaml.safe_dump(vt_config.entries(scn["components"]), f)
+            SI.add("vtbus", False)(Consumer)
+            SI.add("vtbus", False)(Producer)
+            sims = []
+            try:
+                for p_ in file_parts:
+                    kw = {"include_schedulers": bool(p_.get("scheduler"))}
+                    if p_.get("components") == "none":
+                        kw["include_components"] = False
+                    else:
+                        kw["components_to_run"] = None if p_.get("components") is None else set(p_["components"])
+                    sims.append(build_simulation(path, "vtbus", **kw))
+            finally:
+                SI.consumers.pop("vtbus", None)
+                SI.producers.pop("vtbus", None)
+                try:
+                    os.remove(path)
+                    os.rmdir(d)
+                except OSError:
+                    pass
+            sched = next(s_._scheduler for s_ in sims if s_._scheduler is not None)
+            info["scheduler"] = sched
+            info["built"] = [{"scheduler": s_._scheduler is not None, "components": sorted((s_._components or {}).keys())} for s_ in sims]
+            # get_interface is consulted again when the components are started
+            SI.add("vtbus", False)(Consumer)
+            SI.add("vtbus", False)(Producer)
+            tasks = []
+            for k, s_ in enumerate(sims):
+                async def start(s_=s_, k=k):
+                    for _ in range(start_delays.get(f"#part{k}", 0)):
+                        await asyncio.sleep(0)
+                    trace.log("start", proc=f"#part{k}", step=loop.step)
+                    await s_.run()
+                tasks.append(asyncio.create_task(start(), name=f"tickit-part-{k}"))
+            comps = ctx["components"]
+        else:
+            inv = InverseWiring({n: {q: ComponentPort(*s) for q, s in ins.items()} for n, ins in top_inverse(scn).items()})
+            sched = MasterScheduler(inv, Consumer, Producer, initial_time=scn.get("t0", 0),
+                                    simulation_speed=speed[0] / speed[1])
+            info["scheduler"] = sched
+            comps = {c["name"]: build_component(c, ctx) for c in scn["components"]}
 
         async def delayed(k, coro_fn, label):
             for _ in range(k):
@@ -421,13 +474,14 @@ def run_scenario(scn, *, bus="sync", chooser=None, seed=0, max_steps=None, use_s
             trace.log("start", proc=label, step=loop.step)
             await coro_fn()
 
-        tasks = []
-        tasks.append(asyncio.create_task(
-            delayed(start_delays.get("", 0), sched.run_forever, ""), name="tickit-master"))
-        for name, comp in comps.items():
+        if not file_parts:
+            tasks = []
             tasks.append(asyncio.create_task(
-                delayed(start_delays.get(name, 0), lambda comp=comp: comp.run_forever(Consumer, Producer), name),
-                name=f"tickit-comp-{name}"))
+                delayed(start_delays.get("", 0), sched.run_forever, ""), name="tickit-master"))
+            for name, comp in comps.items():
+                tasks.append(asyncio.create_task(
+                    delayed(start_delays.get(name, 0), lambda comp=comp: comp.run_forever(Consumer, Producer), name),
+                    name=f"tickit-comp-{name}"))
         info["tasks"] = tasks
         info["components"] = comps
 
